@@ -76,7 +76,7 @@ struct Rng
 // ------------------------------------------------------------------------------------------
 static inline std::string vfmt(const char *fmt, ...)
 {
-    char buf[2048];
+    char buf[8192];
     va_list ap; va_start(ap, fmt);
     int n = vsnprintf(buf, sizeof(buf), fmt, ap);
     va_end(ap);
@@ -147,6 +147,8 @@ struct Worker
     std::string optstr(const char *k, const char *d) { std::map<std::string,std::string>::iterator i = opts.find(k); return i == opts.end() ? d : i->second; }
 };
 static Worker g_w;
+// When set, Case::violation() records keys here instead of emitting V lines (used by history shrinkers).
+static std::vector<std::string> *g_capture_keys = NULL;
 
 struct Case
 {
@@ -161,6 +163,7 @@ struct Case
     // Report a refuting event. key identifies WHAT fails (used for known-findings matching).
     void violation(const std::string &key, const std::string &detail)
     {
+        if(g_capture_keys) { g_capture_keys->push_back(key); g_w.violations_in_case++; return; }
         g_w.violations_in_case++;
         std::string d = detail;
         for(size_t i = 0; i < d.size(); i++) if(d[i] == '\n' || d[i] == '\t') d[i] = ' ';
